@@ -101,17 +101,29 @@ escaped_field([X | Y], [X | R]) :-
   escaped_field(Y, R).
 
 
-ensure_escaped(Field, Field) :-
-  (atom(Field); integer(Field); float(Field)).
-ensure_escaped([X | Y], Field) :-
-  escaped_field([X | Y], Field).
+field_chars(Field, Chars) :-
+  ( atom(Field) -> atom_chars(Field, Chars)
+  ; number(Field) -> number_chars(Field, Chars)
+  ; Chars = Field ).
+
+
+% A field is enclosed in double quotes if it contains the separator, a double
+% quote or a line break, and if it is text that would be read back as a number.
+must_be_quoted(Field, Chars, Opt) :-
+  ( option(token_separator(Tk_Sep), Opt),
+    member(C, Chars),
+    member(C, [Tk_Sep, '"', '\n', '\r']) -> true
+  ; \+ number(Field),
+    catch(number_chars(_, Chars), _, false) ).
 
 
 write_field(Out, Field, Opt) :-
   ( Field \== [] ->
-    ensure_escaped(Field, Field0),
-    ( Field0 = [_|_] -> format(Out, "~s", [Field0])
-    ; format(Out, "~w", [Field0]))
+    field_chars(Field, Chars),
+    ( must_be_quoted(Field, Chars, Opt) ->
+      escaped_field(Chars, Escaped),
+      format(Out, "\"~s\"", [Escaped])
+    ; format(Out, "~s", [Chars]))
   ; option(null_value(Null_Value), Opt),
     ( Null_Value == empty -> true
     ; format(Out, "~w", [Null_Value]))).
